@@ -105,6 +105,39 @@ def c18_random_history(rng):
         return rec.events, list(gen.kinds.items())
 
 
+def c18_exhaust_history(rng):
+    """A graph that holds one generated-shape name with a (possibly multi-digit) index - a block or region
+    name, or a control variable of a synthetic assignment / branch - then enough requests of that kind to
+    walk the counter past the index: the held name must never be handed out."""
+    from numba_scfg.core.datastructures.scfg import SCFG
+    from numba_scfg.core.datastructures.basic_block import BasicBlock, SyntheticAssignment, SyntheticBranch
+
+    cat = rng.choice(["block", "region", "var"])
+    kind = rng.choice(ADVERSARIAL_KINDS)
+    idx = rng.choice([0, 1, 9, 10, 11, 12, 19, 20, 99, 100, 101, rng.randrange(0, 130)])
+    name = {"block": "%s_block_%d", "region": "%s_region_%d", "var": "__scfg_%s_var_%d__"}[cat] % (kind, idx)
+    how = rng.randrange(3)
+    written = None
+    if cat != "var" and how == 2:
+        written = SCFG({name: BasicBlock(name=name)}).to_dict()   # another generator: outside the history
+    with Recorder() as rec:
+        if cat == "var":
+            blk = (SyntheticAssignment(name="a", variable_assignment={name: 1}) if how == 0 else
+                   SyntheticBranch(name="a", variable=name, branch_value_table={}))
+            sc = SCFG({"a": blk})
+        elif how == 0:
+            sc = SCFG({name: BasicBlock(name=name)})
+        elif how == 1:
+            sc = SCFG()
+            sc.add_block(BasicBlock(name=name))
+        else:
+            sc, _ = SCFG.from_dict(written)
+        gen = sc.name_gen
+        for _ in range(idx + 2):
+            getattr(gen, "new_%s_name" % cat)(kind)
+        return rec.events, list(gen.kinds.items())
+
+
 def c18_reload_history(rng):
     """Run a stage prefix, write, read back, continue with the remaining stages on
     the re-read graph: the events of its (fresh) generator, and whether any input
@@ -229,6 +262,13 @@ def check_c18(pid, tier, build, props):
         h = c18_random_history(rng)
         if h:
             cases.append((h[0], h[1], "api-history"))
+    for _ in range(150 if quick else 1500):
+        try:
+            h = c18_exhaust_history(rng)
+            cases.append((h[0], h[1], "held-name-then-exhaust"))
+        except Exception as e:
+            problems.append("exhaust history raised in the harness: %r" % (e,))
+            break
     for _ in range(120 if quick else 1200):
         try:
             ev, ks, lost, succ_, after = c18_reload_history(rng)
@@ -392,6 +432,13 @@ def check_c13(pid, tier, build, props):
             violations.append({"graph": [list(map(list, nb)) for nb in item],
                                "witness": {"reason": "implementation's answer differs from the proved reference",
                                            "queries": bad[:4], "ground_truth": c13_brute(item)}})
+    # queries are functions of the graph's current contents (no stale state on the graph object)
+    try:
+        hist_n, hist_v = c13.history_check(tier, common.seed())
+    except Exception as e:
+        hist_n, hist_v = 0, []
+        problems.append("history stream raised in the harness: %r" % (e,))
+    violations.extend(hist_v)
     # the dominator work-list, line by line (Model/DomWl.v): every call the pipeline makes and direct calls
     # with the successor sets enumerated in shuffled orders; outcome, table (key order included) and the
     # order in which nodes are processed must be what the model computes
@@ -408,6 +455,7 @@ def check_c13(pid, tier, build, props):
         "discharged": (nth if props["ok"] else 0) + (1 if not violations and not errors and nq else 0)
                       + (1 if dom_tie_ok else 0),
         "dominator_worklist_model": dict(dt, holds=dom_tie_ok),
+        "in_place_edit_histories_compared": hist_n,
         "checker_cmd": "coqc Props/C13.v; build/extract/vchk (RunC13.run_c13) on exported query answers; "
                        "vchk (DomWlRun.run_dom) on observed calls of _find_dominators_internal",
         "trusted_base": TRUSTED + ["extraction (ExtrOcamlBasic only) and ocaml/driver.ml",
@@ -798,10 +846,50 @@ def c11_to_ast(t, flavour="name"):
     if k == "For":
         return ast.For(target=name("i", ast.Store()), iter=name("x"), body=sub.get("body", []),
                        orelse=sub.get("orelse", []), lineno=1, col_offset=0)
-    n = getattr(ast, k)()
+    n = c11_realistic(k)
     for f, l in sub.items():
         setattr(n, f, l)
     return n
+
+
+C11_TEMPLATES = {
+    "AsyncFunctionDef": ("async def g():\n    pass\n", 0),
+    "ClassDef": ("class C:\n    pass\n", 0),
+    "Delete": ("del v\n", 0),
+    "AnnAssign": ("v: int = 1\n", 0),
+    "TypeAlias": ("type T = int\n", 0),
+    "AsyncFor": ("async def _f():\n    async for i in x:\n        pass\n", 1),
+    "AsyncWith": ("async def _f():\n    async with c:\n        pass\n", 1),
+    "With": ("with c:\n    pass\n", 0),
+    "Match": ("match c:\n    case 1:\n        pass\n", 0),
+    "Raise": ("raise e\n", 0),
+    "Try": ("try:\n    pass\nexcept E:\n    pass\n", 0),
+    "TryStar": ("try:\n    pass\nexcept* E:\n    pass\n", 0),
+    "Assert": ("assert c\n", 0),
+    "Import": ("import os\n", 0),
+    "ImportFrom": ("from os import path\n", 0),
+    "Global": ("global v\n", 0),
+    "Nonlocal": ("def _f():\n    v = 1\n    def _g():\n        nonlocal v\n", 2),
+}
+
+
+def c11_realistic(kind):
+    """A node of the class as the parser builds it (all fields present: a statement with a `value`, `test`
+    or `body` field has one), from a source template; a class without template (a newer interpreter) is
+    built bare."""
+    import ast
+
+    tpl = C11_TEMPLATES.get(kind)
+    if tpl is not None:
+        try:
+            node = ast.parse(tpl[0]).body[0]
+            for _ in range(tpl[1]):
+                node = node.body[-1]
+            if type(node).__name__ == kind:
+                return node
+        except SyntaxError:
+            pass
+    return getattr(ast, kind)()
 
 
 def c11_coq(t):
